@@ -329,6 +329,15 @@ def finish(res, claim, t_start, extra_cov=None):
                         if st == "failed":
                             ob = res.obligations[-1]
                             ob["cex"], ob["replayed"], ob["replay_log"], ob["replay_test_source"] = r.get("cex"), rres.get(u), rlog, r.get("replay_src")
+                if r["status"] == "proved" and u in failed_units:
+                    # Verus did not re-prove a postcondition which the COMPLETE Kani twin (loop-free, full input domain) proves for the
+                    # same function body: the postcondition holds, what broke is the Verus proof.  Undecided for Verus, never an alarm.
+                    for o in res.obligations:
+                        if o.get("unit") == u and o["status"] == "failed" and o.get("backend") in (None, "verus") and o.get("kind") == "ensures":
+                            o["status"] = "undecided"
+                            o["detail"] = (o.get("detail") or "") + f" | Kani twin {t['harness']} PROVES the unit's contract on the full input domain ({r.get('detail')})"
+                            res.undecided.append(f"unit {u}: Verus could not re-prove {o['id']}, but the complete Kani twin {t['harness']} proves the contract "
+                                                 f"for every input: proof failure, not a violation")
                 if r["status"] == "failed" and r.get("cex"):
                     # the concrete failing input belongs to the failed Verus obligations of the same unit
                     for o in res.obligations:
@@ -460,17 +469,46 @@ def run_r(res, module_names, select=None, root=None, seed=0):
             results = pool.map(_r_one, range(len(todo)), chunksize=1)
     else:
         results = [_r_one(i) for i in range(len(todo))]
+    len_sites = {}
     for u, (kind, payload, calls, vac) in zip(todo, results):
         n += 1
         if kind != "ok":
             res.undecided.append(payload)
             continue
+        for c in calls:
+            if c.startswith("LEN-CMP|"):
+                _t, fn_, cmp_, val_, out_ = c.split("|")
+                st = len_sites.setdefault((fn_, cmp_), {"vals": set(), "outcomes": set(), "units": set()})
+                st["vals"].add(int(val_))
+                st["outcomes"].add(out_)
+                st["units"].add(u.name)
+        calls = [c for c in calls if not c.startswith("LEN-CMP|")]
         for o in payload:
             res.add_ob(**o)
         if vac:
             res.undecided.append(vac)
         res.units.append({"unit": u.name, "fn": u.fn, "file": u.file, "backend": "ringcheck",
                           "callee_contracts_used": sorted(set(calls))})
+    # ---- size coverage of the instance units: a comparison `len <op> K` between a length fixed by the unit's instance and a constant K
+    # of the code that NO instance reaches (K above every instance's value, one outcome only) means the code has a size-dependent path
+    # which the instances never execute.  Never an alarm: the run is UNDECIDED unless the site is in the recorded baseline of the
+    # pinned commit (specs/ring/len_branch_baseline.json; those are reported as bounded).
+    try:
+        base = json.load(open(os.path.join(SPECS, "ring", "len_branch_baseline.json"))).get("sites", {})
+    except (OSError, ValueError):
+        base = {}
+    for (fn_, cmp_), st in sorted(len_sites.items()):
+        k_ = int(cmp_.split()[-1])
+        if len(st["outcomes"]) == 1 and k_ > max(st["vals"]):
+            key = f"{fn_}|{cmp_}"
+            msg = (f"size-dependent branch `{cmp_}` reached from {fn_} is decided the same way by every instance "
+                   f"(lengths {sorted(st['vals'])} in units {sorted(st['units'])[:4]}): the path for larger sizes is not covered by the instance units")
+            if os.environ.get("VERIF_LEN_BASELINE_PRINT") == "1":
+                print("LEN-BASELINE " + key)
+            if key in base:
+                res.bounded.append({"what": "instance sizes do not reach a size threshold of the code (recorded at the pinned commit)", "site": key, "why_accepted": base[key]})
+            else:
+                res.undecided.append("R instance units: " + msg)
     for mn in module_names:
         m = load_ring_module(mn)
         for lem in getattr(m, "LEMMAS", []):
